@@ -213,3 +213,18 @@ Definition c15_retry_violations (cs : list c15_retry_case) : list nat :=
   indices_where (fun c => negb (c15_retry_prop_ok c)) cs.
 Definition c15_retry_mismatches (cs : list c15_retry_case) : list nat :=
   indices_where (fun c => negb (c15_retry_model_ok c)) cs.
+
+(* ---------- family handle: a retry handle run on another client ---------- *)
+(* (counter of client A, the request interrupted on A, counter of client B, B's history before the
+   handle runs, observed on B including the retransmission) *)
+Definition c15_handle_case := (N * req * N * list hev * list obs)%type.
+
+Definition c15_handle_model_ok (c : c15_handle_case) : bool :=
+  let '(a, r, b, hB, o) := c in list_eqb obs_eqb (run_handle_on a r b hB) o.
+Definition c15_handle_prop_ok (c : c15_handle_case) : bool :=
+  let '(a, r, b, hB, o) := c in c15_prop_ok o.
+
+Definition c15_handle_violations (cs : list c15_handle_case) : list nat :=
+  indices_where (fun c => negb (c15_handle_prop_ok c)) cs.
+Definition c15_handle_mismatches (cs : list c15_handle_case) : list nat :=
+  indices_where (fun c => negb (c15_handle_model_ok c)) cs.
